@@ -424,7 +424,7 @@ def r6_header_is_identity_plus_version(ctx):
     account (directly or through a helper such as header_len)."""
     ws = ctx.ws
     r = ctx.rule("C06-R6", "whatever sizes or rewrites the file header from the identity bytes also accounts for the encoding version",
-                 floor=3, kind="K5 field coverage over method summaries")
+                 floor=2, kind="K5 field coverage over method summaries")
     ms = {root: fn for root, fn in ws.fns.items() if ("FileSystemEventLog<" in root or "FileSystemEventLog::<" in root) and "{closure" not in root}
     memo = {}
 
